@@ -213,8 +213,13 @@ def h_singular(env, fn='souden', D=2):
     env.eq('all_zero_psds_give_zero_vector', wz, np.zeros((2, D)))
 
 
+# properties whose thorough extras were run end-to-end on the unchanged tree (exit 0); others: thorough == quick
+from harness.thorough_verified import THOROUGH_VERIFIED
+
+
 def cases(tier):
-    q = True      # thorough extras of this property were not run end-to-end in round 1: thorough == quick until they are
+    import os
+    q = tier == 'quick' or 'C13' not in THOROUGH_VERIFIED and os.environ.get('VERIF_TRY_EXTRAS') != '1'
     cs = []
     for name in NAMES:
         for ban in ([False, True] if (not q or name in ('mvdr_souden', 'gev', 'wmwf', 'pca')) else [False]):
@@ -233,5 +238,5 @@ def cases(tier):
     cs.append(Case('phase/lead2_F2', h_phase, dict(lead=(2,), F=2, D=2), bounds='leading (2,), F=2 D=2', timeout_ms=120000))
     cs.append(Case('phase/lead2_F3', h_phase, dict(lead=(2,), F=3, D=1), bounds='leading (2,), F=3 D=1', timeout_ms=120000))
     for fn in ['souden', 'wmwf']:
-        cs.append(Case('singular/%s' % fn, h_singular, dict(fn=fn), bounds='D=2, noise bins: zero, rank-1 ones, regular (concrete); symbolic target', timeout_ms=60000))
+        cs.append(Case('singular/%s' % fn, h_singular, dict(fn=fn), bounds='D=2, noise bins: zero, rank-1 ones, regular (concrete); symbolic target', timeout_ms=60000, lazy=True, budget_s=200))
     return cs
